@@ -25,6 +25,13 @@ EXPECT_MISSED = {
     "C09-b": "SHIFT clamp boundary — value-level",
     "C17-a": "one constant of the Easter computus (29578 -> 29587) — a numerical result; pinning the constant would be a frozen-text rule",
     "C18-a": "ilog10_ceil boundary `>=` vs `>` on exact powers of ten — a numerical result of a bit-trick function",
+    # second generation
+    "C05-c": "fdprintf flush boundary `>=` vs `>` at exactly 4096 bytes — a one-value boundary of a size computation",
+    "C08-d": "`f0 >= d` vs `f0 > d` in the epoch -> instant year correction — a boundary inside value arithmetic (same idea as C08-b)",
+    "C09-c": "congruence pre-check of INTERVAL against BYMONTH relaxed — number theory of which months a step reaches",
+    "C17-c": "one constant of the Easter computus (same idea as C17-a)",
+    "C17-e": "look-back predicate `bday_p && !neg_p` simplified to `bvalue > 0`: differs only for a zero business-day shift — value semantics of the SHIFT encoding",
+    "C18-e": "ilog10_ceil boundary (same idea as C18-a)",
 }
 
 
